@@ -1549,4 +1549,64 @@ theorem roundtrip_toks (full : Ast → Bool) (ss : List Ast) (hall : ∀ s ∈ s
     have hlen := length_rStmtTail full xs
     rw [stmts_ok full _ xs s _ hall (by simp only [List.length_append]; omega) (Nat.le_refl _)]
 
+/-! ### a keyword argument followed by a positional one is an error -/
+
+theorem err_up (rec : List PTok → Res Ast) {toks : List PTok} {e : PErr}
+    (h : pUwf rec toks = .error e) (hh : headP toks = true) : pExprBody rec toks = .error e := by
+  have h9 : pUnsigned rec toks = .error e := by simp [pUnsigned, h]
+  have h8 : pUnitless rec toks = .error e := by rw [pUnitless_fall rec hh]; exact h9
+  have h7 : pQuantity rec toks = .error e := by simp [pQuantity, h8]
+  have h6 : pRange rec toks = .error e := by simp [pRange, h7]
+  have h5 : pTerm rec toks = .error e := by rw [pTerm_fall rec (headU_of_headP hh)]; exact h6
+  have h4 : pFactor rec toks = .error e := by simp [pFactor, binLevel, h5]
+  have h3 : pProduct rec toks = .error e := by simp [pProduct, binLevel, h4]
+  have h2 : pSum rec toks = .error e := by simp [pSum, binLevel, h3]
+  have h1 : pComparison rec toks = .error e := by simp [pComparison, h2]
+  simp [pExprBody, h1]
+
+theorem kw_then_pos_err (rec : List PTok → Res Ast) (k : Nat) {t1 : List PTok} (hk : isKwStart t1 = false) :
+    ∃ j, pKeyword rec (k + 1) true (.p .comma :: t1) = .error (.at j) := by
+  rw [pKeyword]
+  simp only [nextIsP, expect_same, if_true]
+  match t1, hk with
+  | [], _ => exact ⟨_, rfl⟩
+  | .var name :: [], _ => exact ⟨_, by simp [expect]; rfl⟩
+  | .var name :: b :: tl, hk =>
+    cases b with
+    | p s => cases s <;> first | (simp [isKwStart] at hk; done) | exact ⟨_, by simp [expect]; rfl⟩
+    | _ => exact ⟨_, by simp [expect]; rfl⟩
+  | .num _ :: _, _ | .str _ :: _, _ | .inst _ :: _, _ | .op _ :: _, _ | .cmp _ :: _, _ | .p _ :: _, _
+  | .bad :: _, _ => exact ⟨_, rfl⟩
+
+/-- tokens `f ( k : v , a )` with a positional argument after a keyword argument: a ParsingError -/
+theorem kwarg_before_positional (f k : String) {a v : Ast} (ha : wfE a = true) (hv : wfE v = true) :
+    ∃ j, parseToks (.var f :: .p .lpar :: .var k :: .p .colon ::
+        (rAt noExtra 0 v ++ .p .comma :: (rAt noExtra 0 a ++ [.p .rpar]))) = .error (.at j) := by
+  have av := all_wf hv
+  have aa := all_wf ha
+  generalize hN : (PTok.var f :: .p .lpar :: .var k :: .p .colon ::
+        (rAt noExtra 0 v ++ .p .comma :: (rAt noExtra 0 a ++ [.p .rpar]))).length = N
+  simp only [List.length_cons, List.length_append, List.length_nil] at hN
+  -- the call itself fails
+  have hrv := rec_ok av noExtra N (.p .comma :: (rAt noExtra 0 a ++ [.p .rpar])) (by omega) rfl
+  have hra := rec_ok aa noExtra N [.p .rpar] (by omega) rfl
+  obtain ⟨j, hj⟩ := kw_then_pos_err (pExpr N)
+    ((rAt noExtra 0 v ++ PTok.p .comma :: (rAt noExtra 0 a ++ [PTok.p .rpar])).length + 1)
+    (not_kwStart_of_rec hra rfl)
+  have hj' : pKeyword (pExpr N)
+      ((rAt noExtra 0 v ++ PTok.p .comma :: (rAt noExtra 0 a ++ [PTok.p .rpar])).length + 2) true
+      (PTok.p .comma :: (rAt noExtra 0 a ++ [PTok.p .rpar])) = .error (.at j) := hj
+  have hcall : pUwf (pExpr N) (.var f :: .p .lpar :: .var k :: .p .colon ::
+        (rAt noExtra 0 v ++ .p .comma :: (rAt noExtra 0 a ++ [.p .rpar]))) = .error (.at j) := by
+    simp only [pUwf, nextIsP_same, if_true, List.drop_succ_cons, List.drop_zero, pCall, pPositional_kw_first,
+      List.length_cons, pKeyword_step_first _ _ hrv, hj']
+  have hbody := err_up (pExpr N) hcall rfl
+  refine ⟨j, ?_⟩
+  simp only [parseToks, List.length_cons, List.length_append, List.length_nil, hN]
+  have hst : pStatement (pExpr (N + 1)) (.var f :: .p .lpar :: .var k :: .p .colon ::
+        (rAt noExtra 0 v ++ .p .comma :: (rAt noExtra 0 a ++ [.p .rpar]))) = .error (.at j) := by
+    rw [pStatement_fall _ (by simp [startsAsg])]
+    exact hbody
+  simp only [pStatements, hst]
+
 end KaVerif.Parser
